@@ -15,6 +15,8 @@ import (
 	"strings"
 	"sync"
 
+	"github.com/samber/lo"
+
 	v1 "github.com/fatedier/frp/pkg/config/v1"
 	plugin "github.com/fatedier/frp/pkg/plugin/server"
 )
@@ -621,10 +623,47 @@ func plugGenScript(rng *rand.Rand) string {
 	return strings.Join(steps, ",")
 }
 
+// a chain of 1…3 real httpPlugins that all consent, at least one of them registered for Ping, and a
+// heartbeat history on it (plugGenBeat): real time, a few of them per run
+func plugGenBeatBlock(rng *rand.Rand, e func(string)) {
+	e("reset")
+	k := 1 + rng.Intn(3)
+	must := rng.Intn(k)
+	pingIDs := []int{}
+	for id := 1; id <= k; id++ {
+		ops := []string{}
+		for _, o := range plugOps {
+			if (o == "Ping" && (id-1 == must || rng.Intn(2) == 0)) || (o != "Ping" && rng.Intn(100) < 40) {
+				ops = append(ops, o)
+			}
+		}
+		if lo.Contains(ops, "Ping") {
+			pingIDs = append(pingIDs, id)
+		}
+		rng.Shuffle(len(ops), func(i, j int) { ops[i], ops[j] = ops[j], ops[i] })
+		kind, x1 := pick(rng, []string{"hacc", "hacc", "happ", "haccC"}), ""
+		if kind != "hacc" {
+			x1 = pick(rng, plugTags)
+		}
+		opsTok := "-"
+		if len(ops) > 0 {
+			opsTok = strings.Join(ops, ",")
+		}
+		e(fmt.Sprintf("reg %d %s %s %s %s", id, opsTok, kind, hx(x1), hx("")))
+	}
+	e("hist " + plugGenBeat(rng, pingIDs))
+}
+
 func plugGen(rng *rand.Rand, n int, emit func(string)) {
 	lines := 0
 	e := func(s string) { emit(s); lines++ }
+	beats := 0
 	for lines < n {
+		// three heartbeat histories per quick run, spread over it
+		if n >= 1000 && beats < 3 && lines >= (2*beats+1)*n/6 {
+			beats++
+			plugGenBeatBlock(rng, e)
+		}
 		e("reset")
 		raw := rng.Intn(8) == 0 // malformed stream: arbitrary bytes, stubs only (JSON would mangle them)
 		httpOK := !raw && rng.Intn(5) != 0
